@@ -220,7 +220,7 @@ def enc_pc_rq(c):
 def enc_pc_ac(c):
     body = bytes([c.cid, 0, c.result, 0])
     if c.transfer is not None:
-        body += _item(0x40, c.transfer.encode("ascii"))
+        body += _item(0x40, c.transfer.encode("latin-1"))
     return _item(0x21, body)
 
 
@@ -746,6 +746,11 @@ def strategies():
             else:
                 for i in sorted(draw(unique_cids(1, maxn))):
                     res = draw(st.sampled_from([0, 0, 0, 1, 2, 3, 4]))
+                    if res != 0 and draw(st.integers(0, 2)) == 0:
+                        # not accepted: the transfer-syntax field "shall not be significant ... shall not be tested" (Table 9-18): any bytes
+                        junk = draw(st.text(alphabet=st.characters(min_codepoint=1, max_codepoint=255), min_size=1, max_size=12))
+                        ctxs.append(PCAC(i, res, junk))
+                        continue
                     ctxs.append(PCAC(i, res, draw(uid()) if res == 0 or draw(st.booleans()) else None))
             pv = 1 if not versions or draw(st.integers(0, 2)) else draw(st.integers(0, 0x7FFF)) * 2 + 1
             return AssocAC(draw(ae_title()), draw(ae_title()), draw(uid()), ctxs, draw(conformant_user_items("ac")), pv)
